@@ -10,7 +10,10 @@ REFUSAL = P.REFUSAL
 INTERNAL_ERROR = P.INTERNAL_ERROR
 ACT_TEXT = "question with an action"   # the only user text the 2.x dialog config routes to the action flow
 
-GEN_TASKS = {"general", "generate_bot_message", "generate_value_from_instruction", "generate_flow_continuation"}
+GEN_TASKS = {"general", "generate_bot_message", "generate_intent_steps_message", "generate_value_from_instruction", "generate_flow_continuation"}
+
+# Colang 1.0 generation modes (see harness/impl/pipeline.py): (gen, dialog rails allowed?)
+GEN_MODES = ["std", "pt", "ptp", "ptfn", "single"]
 
 IN_LISTS = [[], [0], [0, 1], [1, 0], [0, 1, 2], [2, 0, 1], [1, 1]]
 OUT_LISTS = [[], [0], [0, 1], [1, 0], [0, 1, 2], [1, 2, 0], [0, 0]]
@@ -63,6 +66,14 @@ def gen_turn(rng, cfg, k, w_in=(0.62, 0.14, 0.14, 0.10), w_out=(0.62, 0.14, 0.14
             t["act_fault"] = rng.random() < 0.25
             if ver == "2.x":
                 t["user"] = ACT_TEXT
+    if ver == "2.x" and not cfg["dialog"]:
+        # the answering flow waits with `user said something` / a literal / a regular expression: send what it matches
+        form = cfg.get("usaid", "something")
+        if form == "plain":
+            t["user"] = P.PLAIN_TEXT
+        elif form == "regex":
+            t["user"] = t["user"] + " " + rng.choice([P.REGEX_WORD, P.REGEX_WORD.upper(), "the " + P.REGEX_WORD + " please"])
+    t["exc_kind"] = rng.choice(P.EXC_KINDS)
     t["vin"] = [[i, gen_verdict(rng, ver, "in", k, w_in)] for i in sorted(set(cfg["in"]))]
     t["vout"] = [[i, gen_verdict(rng, ver, "out", k, w_out)] for i in sorted(set(cfg["out"]))]
     return t
@@ -90,8 +101,25 @@ def gen_cfg(rng, max_rails=3):
         outs = [l for l in OUT_LISTS if len(l) <= max_rails]
         c = {"ver": ver, "dialog": rng.random() < 0.5, "exc": rng.random() < 0.4, "in": list(rng.choice(ins)), "out": list(rng.choice(outs)),
              "carry": rng.choice(["messages", "state"]) if ver == "1.0" else "state"}
+        if ver == "1.0":
+            # how the user message reaches the LLM: rendered task prompts, passthrough (chat / completion / function), single call
+            c["gen"] = rng.choice(["std", "std", "std", "pt", "pt", "ptp", "ptfn", "single"])
+            c["front"] = rng.random() < 0.3
+            if c["gen"] == "single":
+                c["dialog"] = True
+        elif not c["dialog"]:
+            c["usaid"] = rng.choice(["something", "something", "plain", "regex", "regex"])
         if fits(ver, c["dialog"], len(c["in"]), len(c["out"])):
             return c
+
+
+def gen_variants(carries=("messages", "state")):
+    """Every Colang 1.0 generation mode x dialog rails x a system/context message in front x history carrying."""
+    for gen in GEN_MODES:
+        for dialog in ((True,) if gen == "single" else (False, True)):
+            for front in (False, True):
+                for carry in (("messages",) if gen == "ptp" else carries):
+                    yield {"ver": "1.0", "gen": gen, "dialog": dialog, "front": front, "carry": carry}
 
 
 def all_cfgs(rail_shapes, carries=("messages",)):
@@ -142,6 +170,7 @@ def model_requests(case, obs, method="C01.conv"):
         "m": method,
         "ver": case["ver"],
         "cfg": {"in": case["in"], "out": case["out"], "dialog": bool(case["dialog"]), "exc": bool(case["exc"]), "sc": bool(case.get("sc")),
+                "single_call": case["ver"] == "1.0" and case.get("gen") == "single",
                 "nostop_in": case.get("nostop_in", []), "nostop_out": case.get("nostop_out", [])},
         "turns": [{"user": t["user"], "bot": t["bot"], "intent": t.get("intent", "free"), "vin": t.get("vin", []), "vout": t.get("vout", []),
                    "act_fault": bool(t.get("act_fault")), "retr_fault": bool(t.get("retr_fault"))} for t in case["turns"]],
@@ -230,7 +259,9 @@ def reply_text(rep):
 
 def tags(case, obs):
     t = [f"ver:{case['ver']}", f"dialog:{int(bool(case['dialog']))}", f"exc:{int(bool(case['exc']))}", f"n_in:{len(eff_in(case))}", f"n_out:{len(eff_out(case))}", f"selfcheck:{int(bool(case.get('sc')))}",
-         f"turns:{len(case['turns'])}", f"carry:{case.get('carry')}"]
+         f"turns:{len(case['turns'])}", f"carry:{case.get('carry')}", f"gen:{case.get('gen', 'std') if case['ver'] == '1.0' else '2.x'}", f"front:{int(bool(case.get('front')))}"]
+    if case["ver"] == "2.x" and not case["dialog"]:
+        t.append("usaid:" + case.get("usaid", "something"))
     for tc, to in zip(case["turns"], obs["turns"]):
         for kind in ("in", "out"):
             for s in rail_calls(to, kind):
@@ -248,6 +279,8 @@ def tags(case, obs):
             t.append("reply:empty")
         else:
             t.append("reply:text")
+        if fault_reached(tc, to):
+            t.append("exc-kind:" + tc.get("exc_kind", "msg"))
         if tc.get("act_fault") and any(s[0] == "act" and s[1] == "dialog_act" for s in to["steps"]):
             t.append("dialog-action-fault")
         if tc.get("retr_fault") and any(s[0] == "act" and s[1] == "retrieve" for s in to["steps"]):
@@ -279,6 +312,8 @@ def shrink(case):
                 if v != "a":
                     nt = dict(t, **{key: [[r, ("a" if jj == j else vv)] for jj, (r, vv) in enumerate(t[key])]})
                     yield dict(case, turns=ts[:i] + [nt] + ts[i + 1:])
+        if t.get("exc_kind", "msg") != "msg":
+            yield dict(case, turns=ts[:i] + [dict(t, exc_kind="msg")] + ts[i + 1:])
         for key in ("act_fault", "retr_fault"):
             if t.get(key):
                 yield dict(case, turns=ts[:i] + [dict(t, **{key: False})] + ts[i + 1:])
@@ -286,8 +321,12 @@ def shrink(case):
         l = case[key]
         for i in range(len(l)):
             yield dict(case, **{key: l[:i] + l[i + 1:]})
-    if case["dialog"] and case["ver"] == "1.0":
+    if case.get("front"):
+        yield dict(case, front=False)
+    if case["dialog"] and case["ver"] == "1.0" and case.get("gen") != "single":
         yield dict(case, dialog=False)
+    if case["ver"] == "1.0" and case.get("gen", "std") not in ("std",):
+        yield dict(case, gen="std")
 
 
 # ------------------------------------------------------------------ regions of the recorded open findings
@@ -317,6 +356,25 @@ def after_output_block_v2(case, obs, k):
     return False
 
 
+def fault_reached(tc, to):
+    """a scripted fault was actually hit in this turn (the faulting action was invoked)"""
+    for s in to["steps"]:
+        if s[0] == "rail" and verdict_of(tc, s[1], s[2]) == "f":
+            return True
+        if s[0] == "act" and ((s[1] == "dialog_act" and tc.get("act_fault")) or (s[1] == "retrieve" and tc.get("retr_fault"))):
+            return True
+    return False
+
+
+def stateless_fault_turn(case, obs, k):
+    """Colang 1.0, history rebuilt from plain messages on every request (no events cache), and the failing turn - not the
+    first one - hit an action fault (internal-error result + hide_prev_turn)"""
+    if case["ver"] != "1.0" or case.get("carry") != "fresh" or k is None or k < 1 or k >= len(obs["turns"]):
+        return False
+    return fault_reached(case["turns"][k], obs["turns"][k])
+
+
+SIG_FRESH = "v1-stateless-history-fault-resumes-earlier-turn"
 SIG_STALE = "v1-stale-context-after-hidden-turn"
 SIG_FLAG = "v2-output-rails-skipped-after-abort"
 SIG_SC = "self-check-output-continues-after-exception"
@@ -330,7 +388,7 @@ def selfcheck_output_blocked_in_exception_mode(case, obs, k):
     return any(s[2] == SC_ID and verdict_of(tc, "out", SC_ID) == "r" for s in rail_calls(to, "out"))
 
 
-def region_signature(case, obs, msg, oracle_codes_stale=(), oracle_codes_flag=(), oracle_codes_sc=()):
+def region_signature(case, obs, msg, oracle_codes_stale=(), oracle_codes_flag=(), oracle_codes_sc=(), oracle_codes_fresh=()):
     """Structural signature of a failing case: which recorded defect region (if any) it lies in.
     `msg` starts with "turn N: [code] …" for oracle failures; comparison failures carry no code."""
     k = failing_turn(msg)
@@ -338,6 +396,8 @@ def region_signature(case, obs, msg, oracle_codes_stale=(), oracle_codes_flag=()
     code = m.group(1) if m else None
     if selfcheck_output_blocked_in_exception_mode(case, obs, k) and code is not None and code in oracle_codes_sc:
         return SIG_SC
+    if stateless_fault_turn(case, obs, k) and (code is None or code in oracle_codes_fresh):
+        return SIG_FRESH
     if after_hidden_turn_v1(case, obs, k) and (code is None or code in oracle_codes_stale):
         return SIG_STALE
     if after_output_block_v2(case, obs, k) and (code is None or code in oracle_codes_flag):
